@@ -1244,7 +1244,6 @@ func checkLinkFirst(p *load.Program, r *kit.Report, rule string) {
 	r.Check(bad == "", rule, "Branch.Link/first-match", posOf(p, at), "b.parent is the first branch of the list that knows the previous hash (the loop ends there)", bad)
 }
 
-
 // checkIsLonger: Branch.IsLonger(right) is b.Last().AccumulatedWork.Cmp(right.Last().AccumulatedWork) > 0.
 func checkIsLonger(p *load.Program, r *kit.Report, workF *types.Var) {
 	f := fn(p, r, "ARGMAX", H, "Branch.IsLonger")
@@ -1274,7 +1273,6 @@ func checkIsLonger(p *load.Program, r *kit.Report, workF *types.Var) {
 	}
 	r.Check(bad == "", "ARGMAX", "Branch.IsLonger/cmp", posOf(p, f.Blocks[0].Instrs[0]), "receiver's Last().AccumulatedWork.Cmp(argument's) > 0", bad)
 }
-
 
 // firstMatchReturn: g (a method on a list type) returns, as its first result, the element of its
 // receiver list at which it stops: the element is indexed by a counter ascending from 0 in steps of
